@@ -180,7 +180,7 @@ type SynthOpts struct {
 	SmallAlpha int  // >0: literals drawn from this many symbols
 }
 
-var faultNames = []string{"dist-beyond", "unassigned-code", "oversubscribed", "missing-eob", "repeat-nothing", "run-past-count", "bad-nlen", "btype3", "len-286", "dist-30", "unassigned-dist", "no-dist-code-used", "oversub-cl", "hlit-range", "unassigned-dist-long"}
+var faultNames = []string{"dist-beyond", "unassigned-code", "oversubscribed", "missing-eob", "repeat-nothing", "run-past-count", "bad-nlen", "btype3", "len-286", "dist-30", "unassigned-dist", "no-dist-code-used", "oversub-cl", "hlit-range", "unassigned-dist-long", "stale-dist", "stale-lit"}
 
 type Synth struct {
 	r     *Rng
@@ -190,6 +190,8 @@ type Synth struct {
 	fault string
 	done  bool // fault injected
 	small int
+	// code lengths of the previous dynamic block (for the stale-table faults)
+	prevLL, prevDL []int
 }
 
 func (s *Synth) randTokens(n int, farDist bool, allowRefs bool) []tok {
@@ -469,6 +471,104 @@ func (s *Synth) dynamic(final bool, toks []tok, o SynthOpts) {
 	default:
 		dl = randLens(s.r, ud, 30, 15, skew)
 	}
+	if (fault == "stale-dist" || fault == "stale-lit") && s.prevLL != nil {
+		// Same code as the previous dynamic block, minus its last longest codeword: every other codeword is
+		// unchanged, the dropped one is now unassigned - and is exactly where the previous table had an entry.
+		ll2, dl2 := append([]int{}, s.prevLL...), append([]int{}, s.prevDL...)
+		target := dl2
+		if fault == "stale-lit" {
+			target = ll2
+		}
+		maxl, victim := 0, -1
+		for i, l := range target {
+			if l >= maxl && l > 0 && !(fault == "stale-lit" && i >= 256) {
+				maxl, victim = l, i
+			}
+		}
+		if victim >= 0 && maxl > 1 {
+			oldLC, oldDC := canonCodes(s.prevLL), canonCodes(s.prevDL)
+			target[victim] = 0
+			var body []tok
+			for _, t := range toks {
+				if t.length == 0 {
+					if ll2[t.lit] != 0 {
+						body = append(body, t)
+					}
+					continue
+				}
+				ls, _, _ := lenSym(t.length)
+				ds, _, _ := distSym(t.dist)
+				if ll2[ls] != 0 && dl2[ds] != 0 {
+					body = append(body, t)
+				}
+			}
+			hl, hd := 286, 30
+			for hl > 257 && ll2[hl-1] == 0 {
+				hl--
+			}
+			for hd > 1 && dl2[hd-1] == 0 {
+				hd--
+			}
+			all := append(append([]int{}, ll2[:hl]...), dl2[:hd]...)
+			rl := s.rle(all, 100)
+			usedCL := map[int]bool{}
+			for _, c := range rl {
+				usedCL[c.sym] = true
+			}
+			var ucl []int
+			for x := range usedCL {
+				ucl = append(ucl, x)
+			}
+			sort.Ints(ucl)
+			cl := randLens(s.r, ucl, 19, 7, 0)
+			hclen := 19
+			for hclen > 4 && cl[refClOrder[hclen-1]] == 0 {
+				hclen--
+			}
+			clc := canonCodes(cl)
+			s.w.bits(b2i(final), 1)
+			s.w.bits(2, 2)
+			s.w.bits(hl-257, 5)
+			s.w.bits(hd-1, 5)
+			s.w.bits(hclen-4, 4)
+			for i := 0; i < hclen; i++ {
+				s.w.bits(cl[refClOrder[i]], 3)
+			}
+			for _, c := range rl {
+				s.w.code(clc[c.sym], cl[c.sym])
+				s.w.bits(c.extra, c.ebits)
+			}
+			// all remaining codewords are those of the previous block
+			s.emitNoEOB(body, s.prevLL, s.prevDL)
+			s.apply(body)
+			if fault == "stale-lit" {
+				s.w.code(oldLC[victim], s.prevLL[victim])
+			} else {
+				// a length symbol, then the dropped distance codeword
+				for q := 257; q < 286; q++ {
+					if ll2[q] != 0 {
+						if len(s.out) == 0 {
+							for x := 0; x < 256; x++ {
+								if ll2[x] != 0 {
+									s.w.code(oldLC[x], ll2[x])
+									s.out = append(s.out, byte(x))
+									break
+								}
+							}
+						}
+						s.w.code(oldLC[q], ll2[q])
+						s.w.bits(0, refLenExtra[q-257])
+						s.w.code(oldDC[victim], s.prevDL[victim])
+						break
+					}
+				}
+			}
+			s.w.bits(int(s.r.U64()&0xffffff), 24)
+			s.done = true
+			s.desc = append(s.desc, "dyn+"+fault)
+			return
+		}
+	}
 	var bad tok
 	injected := false
 	switch fault {
@@ -699,6 +799,7 @@ func (s *Synth) dynamic(final bool, toks []tok, o SynthOpts) {
 	default:
 		s.emitTokens(toks, encLL, encDL)
 		s.apply(toks)
+		s.prevLL, s.prevDL = append([]int{}, encLL...), append([]int{}, encDL...)
 	}
 	s.desc = append(s.desc, "dyn")
 }
@@ -711,6 +812,17 @@ func Synthesize(r *Rng, o SynthOpts) ([]byte, []byte, string) {
 		nb = 200 + r.Intn(800)
 	}
 	faultBlock := r.Intn(nb)
+	if o.Fault == "stale-dist" || o.Fault == "stale-lit" {
+		// a valid dynamic block with long codes first, the faulty one right after it
+		if nb < 2 {
+			nb = 2
+		}
+		faultBlock = nb - 1
+		o.ManyDist, o.LongCodes = true, true
+		if o.MaxTokens < 600 {
+			o.MaxTokens = 600
+		}
+	}
 	if o.Fault == "unassigned-dist-long" && nb >= 2 {
 		faultBlock = 1 + r.Intn(nb-1) // stale entries need an earlier block
 		o.ManyDist, o.LongCodes = true, true
@@ -718,6 +830,9 @@ func Synthesize(r *Rng, o SynthOpts) ([]byte, []byte, string) {
 	for b := 0; b < nb; b++ {
 		final := b == nb-1
 		kind := r.Intn(5) // 0 stored 1 fixed 2,3,4 dynamic
+		if (o.Fault == "stale-dist" || o.Fault == "stale-lit") && b == faultBlock-1 {
+			kind = 2
+		}
 		if o.Fault != "" && b == faultBlock && !s.done {
 			switch o.Fault {
 			case "bad-nlen":
